@@ -49,7 +49,7 @@ package mta
 //@   ensures [C10.s] result1 == nil ==> val(result0.S) == (powmod(old(val(r)), chalAlice(ec, old(val(pk.N)), old(val(c)), val(result0.Z), val(result0.U), val(result0.W)), old(val(pk.N))) * sample(1)) % old(val(pk.N))
 
 //@ func (*RangeProofAlice).Verify
-//@   props C06 C11 C12 C13 C05
+//@   props C06 C11 C12 C13 C05 C10
 //@   requires okCurve(ec) && (pk != nil ==> pk.N != nil)
 //@   ensures result ==> (pf != nil && wfAlice(pf) && pk != nil && NTilde != nil && h1 != nil && h2 != nil && c != nil)
 //@   ensures [C11.ranges] result ==> (0 <= val(pf.Z) && val(pf.Z) < val(NTilde) && 0 <= val(pf.U) && val(pf.U) < nsq(pk) && 0 <= val(pf.W) && val(pf.W) < val(NTilde) && 0 <= val(pf.S) && val(pf.S) < val(pk.N))
@@ -59,6 +59,7 @@ package mta
 //@   ensures [C11.ciphertext-is-unit] result ==> gcd(val(c), nsq(pk)) == 1
 //@   ensures [C12.equation-4] result ==> val(pf.U) == (((powmod(val(pk.N) + 1, val(pf.S1), nsq(pk)) * powmod(val(pf.S), val(pk.N), nsq(pk))) % nsq(pk)) * powmod(val(c), 0 - chalAlice(ec, val(pk.N), val(c), val(pf.Z), val(pf.U), val(pf.W)), nsq(pk))) % nsq(pk)
 //@   ensures [C12.equation-5] result ==> val(pf.W) == (((powmod(val(h1), val(pf.S1), val(NTilde)) * powmod(val(h2), val(pf.S2), val(NTilde))) % val(NTilde)) * powmod(val(pf.Z), 0 - chalAlice(ec, val(pk.N), val(c), val(pf.Z), val(pf.U), val(pf.W)), val(NTilde))) % val(NTilde)
+//@   ensures [C10.accepts-whenever-every-check-passes] (((pf != nil && wfAlice(pf) && pk != nil && NTilde != nil && h1 != nil && h2 != nil && c != nil)) && ((0 <= val(pf.Z) && val(pf.Z) < val(NTilde) && 0 <= val(pf.U) && val(pf.U) < nsq(pk) && 0 <= val(pf.W) && val(pf.W) < val(NTilde) && 0 <= val(pf.S) && val(pf.S) < val(pk.N))) && ((gcd(val(pf.Z), val(NTilde)) == 1 && gcd(val(pf.U), nsq(pk)) == 1 && gcd(val(pf.W), val(NTilde)) == 1)) && ((val(pf.S1) >= curveN(ec) && val(pf.S1) <= q3(ec) && val(pf.S2) >= curveN(ec))) && ((val(pf.S) != 1 && val(pf.Z) != 1 && val(pf.S1) != val(pf.S2))) && (gcd(val(c), nsq(pk)) == 1) && (val(pf.U) == (((powmod(val(pk.N) + 1, val(pf.S1), nsq(pk)) * powmod(val(pf.S), val(pk.N), nsq(pk))) % nsq(pk)) * powmod(val(c), 0 - chalAlice(ec, val(pk.N), val(c), val(pf.Z), val(pf.U), val(pf.W)), nsq(pk))) % nsq(pk)) && (val(pf.W) == (((powmod(val(h1), val(pf.S1), val(NTilde)) * powmod(val(h2), val(pf.S2), val(NTilde))) % val(NTilde)) * powmod(val(pf.Z), 0 - chalAlice(ec, val(pk.N), val(c), val(pf.Z), val(pf.U), val(pf.W)), val(NTilde))) % val(NTilde))) ==> result
 
 // ----- proofs.go -----
 
@@ -103,7 +104,7 @@ package mta
 //@   ensures [C10.encode] bytes(result[0]) == be(val(pf.ProofBob.Z)) && bytes(result[9]) == be(val(pf.ProofBob.T2)) && bytes(result[10]) == be(px(pf.U)) && bytes(result[11]) == be(py(pf.U))
 
 //@ func (*ProofBob).Verify
-//@   props C06 C11 C12 C13 C05
+//@   props C06 C11 C12 C13 C05 C10
 //@   requires okCurve(ec) && (pk != nil ==> pk.N != nil) && len(Session) <= 1048576
 //@   requires pf != nil ==> (wfBob(pf) && nnBob(pf))
 //@   ensures result ==> (pf != nil && pk != nil && NTilde != nil && h1 != nil && h2 != nil && c1 != nil && c2 != nil)
@@ -111,7 +112,7 @@ package mta
 
 //@ func (*ProofBobWC).Verify
 //@   deadpoints 2
-//@   props C06 C11 C12 C13 C05
+//@   props C06 C11 C12 C13 C05 C10
 //@   requires okCurve(ec) && (pk != nil ==> pk.N != nil) && len(Session) <= 1048576
 //@   requires pf != nil && pf.ProofBob != nil && wfBob(pf.ProofBob) && nnBob(pf.ProofBob)
 //@   requires X != nil ==> (validPoint(X) && X.curve != nil && validPoint(pf.U))
@@ -122,7 +123,7 @@ package mta
 //@   ensures [C12.equation-5] (result && X == nil) ==> (powmod(val(h1), val(pf.ProofBob.S1), val(NTilde)) * powmod(val(h2), val(pf.ProofBob.S2), val(NTilde))) % val(NTilde) == (powmod(val(pf.ProofBob.Z), chalBob(Session, ec, val(pk.N), val(c1), val(c2), val(pf.ProofBob.Z), val(pf.ProofBob.ZPrm), val(pf.ProofBob.T), val(pf.ProofBob.V), val(pf.ProofBob.W)), val(NTilde)) * val(pf.ProofBob.ZPrm)) % val(NTilde)
 //@   ensures [C12.equation-7] (result && X == nil) ==> (((powmod(val(c1), val(pf.ProofBob.S1), nsq(pk)) * powmod(val(pf.ProofBob.S), val(pk.N), nsq(pk))) % nsq(pk)) * powmod(val(pk.N) + 1, val(pf.ProofBob.T1), nsq(pk))) % nsq(pk) == (powmod(val(c2), chalBob(Session, ec, val(pk.N), val(c1), val(c2), val(pf.ProofBob.Z), val(pf.ProofBob.ZPrm), val(pf.ProofBob.T), val(pf.ProofBob.V), val(pf.ProofBob.W)), nsq(pk)) * val(pf.ProofBob.V)) % nsq(pk)
 //@   ensures [C12.equation-5-with-check] (result && X != nil) ==> (powmod(val(h1), val(pf.ProofBob.S1), val(NTilde)) * powmod(val(h2), val(pf.ProofBob.S2), val(NTilde))) % val(NTilde) == (powmod(val(pf.ProofBob.Z), chalBobWC(Session, ec, val(pk.N), px(X), py(X), val(c1), val(c2), px(pf.U), py(pf.U), val(pf.ProofBob.Z), val(pf.ProofBob.ZPrm), val(pf.ProofBob.T), val(pf.ProofBob.V), val(pf.ProofBob.W)), val(NTilde)) * val(pf.ProofBob.ZPrm)) % val(NTilde)
-//@   ensures [C11.public-point-consistent] (result && X != nil) ==> (ecbasex(ec, val(pf.ProofBob.S1) % curveN(ec)) == ecaddx(X.curve, ecmulx(X.curve, px(X), py(X), chalBobWC(Session, ec, val(pk.N), px(X), py(X), val(c1), val(c2), px(pf.U), py(pf.U), val(pf.ProofBob.Z), val(pf.ProofBob.ZPrm), val(pf.ProofBob.T), val(pf.ProofBob.V), val(pf.ProofBob.W))), ecmuly(X.curve, px(X), py(X), chalBobWC(Session, ec, val(pk.N), px(X), py(X), val(c1), val(c2), px(pf.U), py(pf.U), val(pf.ProofBob.Z), val(pf.ProofBob.ZPrm), val(pf.ProofBob.T), val(pf.ProofBob.V), val(pf.ProofBob.W))), px(pf.U), py(pf.U)))
+//@   ensures [C11,C10,C13.public-point-consistent] (result && X != nil) ==> (ecbasex(ec, val(pf.ProofBob.S1) % curveN(ec)) == ecaddx(X.curve, ecmulx(X.curve, px(X), py(X), chalBobWC(Session, ec, val(pk.N), px(X), py(X), val(c1), val(c2), px(pf.U), py(pf.U), val(pf.ProofBob.Z), val(pf.ProofBob.ZPrm), val(pf.ProofBob.T), val(pf.ProofBob.V), val(pf.ProofBob.W))), ecmuly(X.curve, px(X), py(X), chalBobWC(Session, ec, val(pk.N), px(X), py(X), val(c1), val(c2), px(pf.U), py(pf.U), val(pf.ProofBob.Z), val(pf.ProofBob.ZPrm), val(pf.ProofBob.T), val(pf.ProofBob.V), val(pf.ProofBob.W))), px(pf.U), py(pf.U)))
 
 //@ define okBobParams(pk, NTilde, x, y) = (pk != nil ==> (pk.N != nil && val(pk.N) > 0 && bitlen(val(pk.N)) <= 4096)) && (NTilde != nil ==> (val(NTilde) > 0 && bitlen(val(NTilde)) <= 3000)) && (x != nil ==> val(x) >= 0) && (y != nil ==> val(y) >= 0)
 
